@@ -124,7 +124,19 @@ CLAIM = dict(
           "longest_dimension_first(start, width, height) omitted / given / by keyword; a_star by keyword. Left at "
           "their defaults: ner_net(wrap_around, radius) and avoid_dead_links(wrap_around) have defaults route() "
           "never uses (it always passes both; both values of wrap_around and many radii flow through), "
-          "RoutingTree(children=...) and Net(weight=...) are not observable through the property (weight is varied). "
+          "RoutingTree(children=...) is not observable through the property. ATTRIBUTES THE ROUTER DOES NOT READ are a "
+          "generator dimension of every stream (single, large, history twins `attrs`, every net of the multi-net "
+          "stream): Net.weight (`float or int`) in {argument omitted, 1.0, 0, 0.0, -0.0, 5e-324, 1e-300, 1.7e308, inf, "
+          "-1, -0.5, -inf, nan, 3, 0.25, False, True, 2^70, numpy float64 0 / int64 0 / float32 0.25 / float64 nan / "
+          "int8 -3}, given positionally / by keyword / assigned after construction; the sinks list as a list "
+          "subclass; further attributes set on the Net; vertices with their own __eq__/__hash__ (colliding hashes "
+          "n % 2 or constant; the Net names them by EQUAL BUT DISTINCT objects than placements / allocations / "
+          "constraints do); half of the multi-net cases hold a zero / negative / nan weight net among ordinary "
+          "ones, nets of one call given as list / tuple / generator / dict keys. JUDGE: route() returns a dict "
+          "with a RoutingTree for EVERY net handed in (`no-tree-for-net` is a violation - the property demands a "
+          "tree for every net; keys besides the nets are a correspondence mismatch), each tree valid per the Lean "
+          "predicate. Sinks as tuple / set / generator are not legal (`sinks : list or vertex`: a non-list IS one "
+          "vertex). Tags attr_*, err_NoTreeForNet, multi_no_tree_for_net. "
           "(3) scale: extreme-shape stream (2100-chip rings / strips, trees > 1000 levels, repair on them, a "
           "broadcast to all 255 / 575 other chips), large-net stream; nothing in scope is counted in 8 or 16 bits "
           "(cores 0..17 and routes 0..23 are enumerated fully). (4) histories: HISTORY stream - 2-5 calls in one "
@@ -188,7 +200,10 @@ RULE = ("machines 1x1..12x12 (incl. 1xN, 2xN), torus / mesh / partly wrapped, 0-
         "and without start); multi-net stream (500 quick / 15000 thorough): ONE route() call with 2-6 nets drawn from a small "
         "pool of chips - same source chip and same set of sink chips but other vertices / cores / endpoint routes, "
         "identical nets, the same Net object twice, partial overlaps, shared sink vertices - non-trivial when two nets "
-        "between the same chips differ in their sinks or an A* detour occurred. A single-net case is non-trivial when the dead-link repair ran with at least one A* detour or the net "
+        "between the same chips differ in their sinks or an A* detour occurred; every net of every stream carries "
+        "attributes the router does not read (Net.weight over 24 values incl. 0, 0.0, negative, nan, inf, numpy "
+        "scalars, given in three ways; list subclass; extra attributes), vertices with custom __eq__/__hash__; every "
+        "net handed in must get exactly one tree. A single-net case is non-trivial when the dead-link repair ran with at least one A* detour or the net "
         "has >= 3 distinct destination chips; distinct = distinct canonical JSON of the case")
 
 SCALE = 1 << 20
@@ -447,8 +462,89 @@ def cpu_budget(mach):
 
 
 VKINDS = ["int", "int", "str", "tuple0", "tuple1", "tuple2", "tuple3", "namedtuple", "frozenset", "object", "bigint",
-          "float", "bytes"]
+          "float", "bytes", "custom_hash", "const_hash"]
+
+# ATTRIBUTES of the problem objects that the router does not read are a generator dimension of every stream:
+# Net.weight ("float or int", the strength of the net in application specific units - every number is legal), how it
+# is given (omitted / positional / keyword / assigned afterwards), the class of the sinks list, further attributes
+# set on the Net.  Every net handed to route() must get exactly one tree whatever these say.
+WEIGHTS = ["default", "default", "float1", "int0", "float0", "negzero", "denormal", "tiny", "huge", "inf", "neg_int",
+           "neg_float", "neginf", "nan", "int3", "quarter", "bool_false", "bool_true", "bigint", "np_float64_0",
+           "np_int64_0", "np_float32_quarter", "np_nan", "np_int8_neg"]
+
+
+def weight_object(spec):
+    """the value of Net.weight for a spec of WEIGHTS (numbers stand for themselves: older corpus cases)"""
+    if not isinstance(spec, str):
+        return spec
+    plain = {"float1": 1.0, "int0": 0, "float0": 0.0, "negzero": -0.0, "denormal": 5e-324, "tiny": 1e-300,
+             "huge": 1.7e308, "inf": float("inf"), "neg_int": -1, "neg_float": -0.5, "neginf": float("-inf"),
+             "nan": float("nan"), "int3": 3, "quarter": 0.25, "bool_false": False, "bool_true": True,
+             "bigint": 2 ** 70}
+    if spec in plain:
+        return plain[spec]
+    import numpy
+    return {"np_float64_0": lambda: numpy.float64(0.0), "np_int64_0": lambda: numpy.int64(0),
+            "np_float32_quarter": lambda: numpy.float32(0.25), "np_nan": lambda: numpy.float64("nan"),
+            "np_int8_neg": lambda: numpy.int8(-3)}[spec]()
+
+
+def gen_attrs(rng):
+    """what the unread attributes of one Net say (JSON)"""
+    return dict(weight=rng.choice(WEIGHTS), weight_how=rng.choice(["positional", "keyword", "attribute"]),
+                sinks_class=rng.choice(["list", "list", "list_subclass"]), extra_attr=rng.random() < 0.2)
+
+
+class _SinkList(list):
+    """a caller's own list class: `sinks : list`"""
+
+
+def make_net(NetClass, source, sink_objs, attrs, bare=False):
+    """Net(source, sinks[, weight]) spelled as `attrs` says; returns (net, tags)"""
+    tags = []
+    spec = attrs.get("weight", "default")
+    sinks_arg = sink_objs[0] if bare else (_SinkList(sink_objs) if attrs.get("sinks_class") == "list_subclass"
+                                           else list(sink_objs))
+    if attrs.get("sinks_class") == "list_subclass" and not bare:
+        tags.append("attr_sinks_list_subclass")
+    how = attrs.get("weight_how", "positional")
+    if spec == "default":
+        net = NetClass(source, sinks_arg)
+    elif how == "keyword":
+        net = NetClass(source, sinks_arg, weight=weight_object(spec))
+    elif how == "attribute":
+        net = NetClass(source, sinks_arg)
+        net.weight = weight_object(spec)
+    else:
+        net = NetClass(source, sinks_arg, weight_object(spec))
+    tags.append("attr_weight_%s" % (spec if isinstance(spec, str) else "number_%r" % (spec,)))
+    if spec != "default":
+        tags.append("attr_weight_given_" + how)
+    if attrs.get("extra_attr"):
+        net.name = "net %s {}"
+        net.enabled = False
+        tags.append("attr_net_has_further_attributes")
+    return net, tags
 _BIG = [2 ** 31, 2 ** 32, 2 ** 53 + 1, 2 ** 63, 2 ** 64, 2 ** 100]
+
+
+class _HashVertex(object):
+    """a vertex with its own __eq__ / __hash__: equal iff same number; hashes collide (n % 2, or 7 for all)"""
+
+    def __init__(self, n, const):
+        self.n, self.const = n, const
+
+    def __eq__(self, other):
+        return isinstance(other, _HashVertex) and other.n == self.n
+
+    def __ne__(self, other):
+        return not self.__eq__(other)
+
+    def __hash__(self):
+        return 7 if self.const else self.n % 2
+
+    def __repr__(self):
+        return "<hashvertex %d>" % self.n
 
 
 class _PlainVertex(object):
@@ -486,6 +582,8 @@ def vertex_object(i, kind):
         return i + 0.5
     if kind == "bytes":
         return b"v%d" % i
+    if kind in ("custom_hash", "const_hash"):
+        return _HashVertex(i, kind == "const_hash")      # a NEW (equal) object at every call
     return i
 
 
@@ -635,17 +733,28 @@ def run_impl(case, env=None):
         class NetClass(Net):
             pass
         tags.append("api_net_subclass")
-    sink_objs = [vobj[v] for v in net["sinks"]]
+    # vertices with their own __eq__: the Net names them by other (equal) objects than placements / allocations do
+    vobj_net = [vertex_object(i, vk[i]) if i < len(vk) and vk[i] in ("custom_hash", "const_hash") else vobj[i]
+                for i in range(nv)]
+    sink_objs = [vobj_net[v] for v in net["sinks"]]
+    attrs = dict(case.get("attrs") or {})
+    if "weight" not in attrs and "weight" in api:
+        attrs["weight"] = api["weight"]
     if shared and isinstance(env.get("net"), Net):
         the_net = env["net"]                  # the same Net object, edited in place
-        the_net.source = vobj[0]
+        the_net.source = vobj_net[0]
         the_net.sinks[:] = sink_objs
+        if attrs.get("weight", "default") != "default":
+            the_net.weight = weight_object(attrs["weight"])
+            tags.append("attr_weight_%s" % (attrs["weight"],))
         tags.append("hist_net_edited_in_place")
     elif api.get("bare_sink") and len(sink_objs) == 1 and not isinstance(sink_objs[0], list):
-        the_net = NetClass(vobj[0], sink_objs[0], api.get("weight", 1.0))      # `sinks : list or vertex`
+        the_net, ntags = make_net(NetClass, vobj_net[0], sink_objs, attrs, bare=True)      # `sinks : list or vertex`
+        tags += ntags
         tags.append("api_single_sink_not_in_a_list")
     else:
-        the_net = NetClass(vobj[0], list(sink_objs), api.get("weight", 1.0))
+        the_net, ntags = make_net(NetClass, vobj_net[0], sink_objs, attrs)
+        tags += ntags
     if env is not None:
         env["net"] = the_net
     nets_as = api.get("nets_as", "list")
@@ -786,8 +895,23 @@ def run_impl(case, env=None):
         (geometry.random, rutils.random, ner.ner_net, ner.copy_and_disconnect_tree, ner.a_star,
          ner.avoid_dead_links) = orig
         ner.longest_dimension_first, ner.shortest_mesh_path_length, ner.shortest_torus_path_length = o_geo
-    root = routes[the_net]
+    # exactly one tree for every net handed in: the result is a dict whose keys are the nets
+    bad = None
+    try:
+        keys = list(routes.keys())
+        if any(k is not the_net for k in keys):
+            rec["extra_keys"] = len([k for k in keys if k is not the_net])
+        root = routes[the_net]
+        if not isinstance(root, RoutingTree):
+            bad = "route() returned %r (not a RoutingTree) for the net" % (type(root).__name__,)
+    except (KeyError, TypeError, AttributeError) as e:
+        bad = "route() returned %s; looking the net up in it: %s" % (
+            ("a dict with %d key(s)" % len(routes)) if isinstance(routes, dict) else type(routes).__name__, type(e).__name__)
+    if bad is not None:
+        return {"err": "NoTreeForNet", "msg": "%s; Net.weight = %r" % (bad, getattr(the_net, "weight", None))}, rec
     lookup = rec["lookup"]
+    if lookup is None:
+        return {"err": "NoTreeForNet", "msg": "route() returned a tree without calling ner_net"}, rec
     forest = forest_of_lookup(lookup)
     # every RoutingTree child must be the node object the lookup has for its chip (one object per chip)
     alias = False
@@ -954,10 +1078,20 @@ def eval_cases(ctx, cases, impl=None, report=None, count=True):
                               "source %r, sinks %r" % (",".join(why), mach["w"], mach["h"], net["place"]["0"],
                                                        sinks_json(net)), rc)
             ctx.tag("ok_repaired" if rec["repaired"] else "ok_clean")
+            if rec.get("extra_keys"):
+                ctx.mismatch("c03.result_keys", "the dict route() returned has %d key(s) besides the net handed in"
+                             % rec["extra_keys"], rc)
             if rec.get("lazy_iter_diff"):
                 ctx.mismatch("c03.lazy_iteration", rec["lazy_iter_diff"], rc)
             if verdict.get("stubs"):
                 ctx.tag("stub_branch_left_by_repair")
+        elif res["err"] == "NoTreeForNet":
+            ctx.violation("no-tree-for-net",
+                          "route() returned normally but NOT a routing tree for the net it was given (%s); machine "
+                          "%dx%d, source %r, sinks %r; the property demands a tree for every net, whatever its weight "
+                          "or other attributes the router does not need"
+                          % (res.get("msg"), mach["w"], mach["h"], net["place"]["0"], sinks_json(net)), rc)
+            ctx.tag("err_NoTreeForNet")
         elif res["err"] == "Disconnected":
             if minfo.get("strong") and strong:
                 ctx.violation("disconnected-on-connected-machine",
@@ -1111,7 +1245,7 @@ def gen_large(ctx, n):
     for _ in range(n):
         mach = gen_large_machine(ctx.rng)
         out.append(dict(machine=mach, net=gen_large_net(ctx.rng, mach), rseed=ctx.rng.randrange(1 << 30),
-                        stream="large_net"))
+                        stream="large_net", attrs=gen_attrs(ctx.rng)))
     return out
 
 
@@ -1191,7 +1325,7 @@ def twin_of(rng, step):
     dead = set(map(tuple, mach["dead_chips"]))
     live = [(x, y) for x in range(mach["w"]) for y in range(mach["h"]) if (x, y) not in dead]
     what = rng.choice(["same", "same", "radius", "dead_link", "live_link", "sink_added", "sink_removed", "sink_moved",
-                       "cores", "api", "tape", "cut_off", "other_machine"])
+                       "cores", "api", "attrs", "attrs", "tape", "cut_off", "other_machine"])
     if what == "radius":
         net["radius"] = rng.choice([r for r in [0, 1, 2, 3, 20, 64] if r != net["radius"]])
     elif what == "dead_link":
@@ -1221,6 +1355,8 @@ def twin_of(rng, step):
         net["kinds"][str(v)] = gen_kind(rng)
     elif what == "api":
         t["api"] = gen_api(rng, net)
+    elif what == "attrs":
+        t["attrs"] = gen_attrs(rng)              # the same net with another weight / list class / extra attributes
     elif what == "tape":
         t["rseed"] = rng.randrange(1 << 30)
     elif what == "cut_off":
@@ -1235,6 +1371,7 @@ def twin_of(rng, step):
         t["machine"] = gen_machine(rng, SIZES_H)
         t["net"] = gen_net(rng, t["machine"])
         t["api"] = gen_api(rng, t["net"]) if rng.random() < 0.5 else None
+        t["attrs"] = gen_attrs(rng)
     if what in ("api", "other_machine") or not t.get("api"):
         pass
     # the api options that depend on the net must stay legal
@@ -1253,7 +1390,7 @@ def gen_history(rng):
     mach = gen_machine(rng, SIZES_H)
     net = gen_net(rng, mach)
     first = dict(machine=mach, net=net, rseed=rng.randrange(1 << 30),
-                 api=gen_api(rng, net) if rng.random() < 0.6 else None)
+                 api=gen_api(rng, net) if rng.random() < 0.6 else None, attrs=gen_attrs(rng))
     steps, notes = [first], ["first"]
     for _ in range(rng.randint(1, 4)):
         base = rng.choice(steps)
@@ -1455,9 +1592,17 @@ def gen_multi(rng, mach):
             nets.append(n)
         else:
             nets.append(fresh_net())
+    for n in nets:
+        n["attrs"] = gen_attrs(rng)
+    # at least one net that "carries no traffic" in half of the cases, among nets that do
+    if rng.random() < 0.5:
+        rng.choice(nets)["attrs"]["weight"] = rng.choice(["int0", "float0", "negzero", "neg_int", "nan", "np_float64_0",
+                                                          "bool_false"])
+    vkinds = [rng.choice(VKINDS) for _ in place] if rng.random() < 0.4 else None
     return dict(kind="multi", machine=mach, place={str(k): v for k, v in place.items()},
                 kinds={str(k): v for k, v in kinds.items()}, nets=nets, radius=rng.choice([0, 1, 2, 20, 20]),
-                rseed=rng.randrange(1 << 30))
+                rseed=rng.randrange(1 << 30), vkinds=vkinds, nets_as=rng.choice(["list", "list", "tuple", "generator",
+                                                                                  "dictkeys"]))
 
 
 def multi_sinks_json(case, net):
@@ -1482,11 +1627,12 @@ def node_ids(root, limit):
     return seen
 
 
-def leaves_of_lookup(lookup):
+def leaves_of_lookup(lookup, vid=None):
     from rig.place_and_route.routing_tree import RoutingTree
     leaves = {}
     for chip, node in lookup.items():
-        lv = [[None if r is None else int(r), c] for r, c in node.children if not isinstance(c, RoutingTree)]
+        lv = [[None if r is None else int(r), c if vid is None else vid(c)] for r, c in node.children
+              if not isinstance(c, RoutingTree)]
         if lv:
             leaves["%d,%d" % chip] = lv
     return leaves
@@ -1504,20 +1650,48 @@ def run_impl_multi(case):
     from rig.routing_table import Routes
 
     from harness import common
+    from rig.place_and_route.routing_tree import RoutingTree
     mach = case["machine"]
     machine = build_machine(mach)
-    place = {int(k): tuple(v) for k, v in case["place"].items()}
+    nv = len(case["place"])
+    vk = case.get("vkinds") or ["int"] * nv
+    vobj = [vertex_object(i, vk[i]) for i in range(nv)]
+    # vertices with their own __eq__: the nets name them by other (equal) objects than placements / allocations do
+    vnet = [vertex_object(i, vk[i]) if vk[i] in ("custom_hash", "const_hash") else vobj[i] for i in range(nv)]
+    vid_map = {}
+    for i, o in enumerate(vobj):
+        vid_map[o] = i
+
+    def vid(c):
+        return vid_map.get(c, -1) if _hashable(c) else -1
+
+    place = {vobj[int(k)]: tuple(v) for k, v in case["place"].items()}
     kinds = {int(k): v for k, v in case["kinds"].items()}
     allocations, constraints = {}, []
     for v, kd in sorted(kinds.items()):
         entry, endpoint = alloc_of_kind(v, kd, Cores)
         if entry is not None:
-            allocations[v] = entry
+            allocations[vobj[v]] = entry
         if endpoint is not None:
-            constraints.append(RouteEndpointConstraint(v, Routes(endpoint)))
-    objs = []
+            constraints.append(RouteEndpointConstraint(vobj[v], Routes(endpoint)))
+    objs, mtags = [], []
     for n in case["nets"]:
-        objs.append(objs[n["same_as"]] if n["same_as"] is not None else Net(n["source"], list(n["sinks"])))
+        if n["same_as"] is not None:
+            objs.append(objs[n["same_as"]])
+        else:
+            o, t = make_net(Net, vnet[n["source"]], [vnet[v] for v in n["sinks"]], n.get("attrs") or {})
+            objs.append(o)
+            mtags += t
+    for k in set(vk):
+        if k != "int":
+            mtags.append("api_vertex_" + k)
+    nets_as = case.get("nets_as") or "list"
+    if len(set(map(id, objs))) < len(objs) and nets_as == "dictkeys":
+        nets_as = "list"                       # the same Net object twice cannot be spelled as dict keys
+    nets_arg = {"list": lambda: list(objs), "tuple": lambda: tuple(objs), "generator": lambda: (o for o in list(objs)),
+                "dictkeys": lambda: {o: 1 for o in objs}.keys()}[nets_as]()
+    if nets_as != "list":
+        mtags.append("api_nets_as_" + nets_as)
     tape, recs = [], []
     fake = FakeRandom(case["rseed"], tape)
     orig = (geometry.random, rutils.random, ner.ner_net, ner.copy_and_disconnect_tree, ner.a_star,
@@ -1565,7 +1739,7 @@ def run_impl_multi(case):
     try:
         try:
             with common.cpu_limit(cpu_budget(mach)):
-                routes = ner.route({v: {} for v in place}, list(objs), machine, constraints, place, allocations,
+                routes = ner.route({v: {} for v in place}, nets_arg, machine, constraints, place, allocations,
                                    Cores, case["radius"])
         except common.ImplHang as e:
             _HANGS[0] += 1
@@ -1578,13 +1752,30 @@ def run_impl_multi(case):
         (geometry.random, rutils.random, ner.ner_net, ner.copy_and_disconnect_tree, ner.a_star,
          ner.avoid_dead_links) = orig
     limit = 4 * mach["w"] * mach["h"] + 20
-    trees, ids, roots = [], [], []
-    for o in objs:
-        root = routes[o]
+    trees, ids, roots, missing = [], [], [], {}
+    for i, o in enumerate(objs):
+        # exactly one tree for every net handed in: the result is a dict whose keys are the nets
+        try:
+            root = routes[o]
+            if not isinstance(root, RoutingTree):
+                raise TypeError("the value is a %s" % type(root).__name__)
+        except (KeyError, TypeError, AttributeError) as e:
+            missing[i] = "%s (%s); Net.weight = %r" % (
+                ("the returned dict has %d key(s) for %d net object(s)" % (len(routes), len(set(map(id, objs)))))
+                if isinstance(routes, dict) else "route() returned a %s" % type(routes).__name__,
+                type(e).__name__, getattr(o, "weight", None))
+            roots.append(None)
+            trees.append(None)
+            ids.append({})
+            continue
         roots.append(root)
-        trees.append(flat_tree(root, 2 * mach["w"] * mach["h"] + 10))
+        trees.append(flat_tree(root, 2 * mach["w"] * mach["h"] + 10, vid))
         ids.append(node_ids(root, limit))
-    return {"ok": dict(trees=trees, ids=ids, roots=roots, objs=objs), "tape": tape}, recs
+    extra = 0
+    if isinstance(routes, dict):
+        extra = len([k for k in routes.keys() if not any(k is o for o in objs)])
+    return {"ok": dict(trees=trees, ids=ids, roots=roots, objs=objs, missing=missing, extra=extra, vid=vid,
+                       tags=mtags), "tape": tape}, recs
 
 
 def eval_multi(ctx, cases):
@@ -1603,8 +1794,9 @@ def eval_multi(ctx, cases):
         reqs.append(mreq(mach, op="route_nets", nets=nets_json, radius=c["radius"], tape=res["tape"], legacy=False))
         if "ok" in res:
             for n, tree in zip(c["nets"], res["ok"]["trees"]):
-                reqs.append(mreq(mach, op="valid_tree", source=c["place"][str(n["source"])],
-                                 sinks=multi_sinks_json(c, n), flat=tree))
+                if tree is not None:
+                    reqs.append(mreq(mach, op="valid_tree", source=c["place"][str(n["source"])],
+                                     sinks=multi_sinks_json(c, n), flat=tree))
         for rec in recs:
             for call in rec["astar_calls"]:
                 if "path" in call:
@@ -1615,7 +1807,7 @@ def eval_multi(ctx, cases):
         mach, nets = c["machine"], c["nets"]
         minfo = next(replies)
         model = next(replies)
-        verdicts = [next(replies) for _ in nets] if "ok" in res else []
+        verdicts = [(next(replies) if t is not None else None) for t in res["ok"]["trees"]] if "ok" in res else []
         for rec in recs:
             for call in rec["astar_calls"]:
                 if "path" in call and next(replies) is not True:
@@ -1628,7 +1820,21 @@ def eval_multi(ctx, cases):
         # --- the property oracle on the implementation's own outcome, net by net
         if "ok" in res:
             io = res["ok"]
+            for t in io["tags"]:
+                ctx.tag(t)
+            if io["extra"]:
+                ctx.mismatch("c03.result_keys", "the dict route() returned has %d key(s) that are none of the %d nets "
+                             "handed in" % (io["extra"], len(nets)), c)
             for i, (n, verdict) in enumerate(zip(nets, verdicts)):
+                if verdict is None:
+                    ctx.violation("no-tree-for-net",
+                                  "route() with %d nets in one call returned normally but NO routing tree for net %d "
+                                  "(source vertex %r on chip %r, sinks %r): %s; the property demands a tree for every "
+                                  "net, whatever its weight or other attributes the router does not need"
+                                  % (len(nets), i, n["source"], c["place"][str(n["source"])], multi_sinks_json(c, n),
+                                     io["missing"].get(i)), c)
+                    ctx.tag("multi_no_tree_for_net")
+                    continue
                 if not verdict.get("valid"):
                     why = verdict.get("why") or ["protocol"]
                     ctx.violation(why[0], "route() with %d nets in one call: the tree returned for net %d (source "
@@ -1705,11 +1911,13 @@ def eval_multi(ctx, cases):
                     lookup = rec["lookup"]
                     if forest_of_lookup(lookup) != mo["forest"]:
                         diffs.append(("avoid_dead_links[net %d]" % i, mo["forest"], forest_of_lookup(lookup)))
-                    elif leaves_of_lookup(lookup) != group_leaves(mo["leaves"]):
-                        diffs.append(("sinks[net %d]" % i, group_leaves(mo["leaves"]), leaves_of_lookup(lookup)))
+                    elif leaves_of_lookup(lookup, res["ok"]["vid"]) != group_leaves(mo["leaves"]):
+                        diffs.append(("sinks[net %d]" % i, group_leaves(mo["leaves"]),
+                                      leaves_of_lookup(lookup, res["ok"]["vid"])))
                     else:
                         last = max(k for k in range(len(nets)) if res["ok"]["objs"][k] is res["ok"]["objs"][i])
-                        if last == i and (list(res["ok"]["roots"][i].chip) != mo["root"] or
+                        if last == i and res["ok"]["roots"][i] is not None and (
+                                          list(res["ok"]["roots"][i].chip) != mo["root"] or
                                           lookup.get(res["ok"]["roots"][i].chip) is not res["ok"]["roots"][i]):
                             diffs.append(("root[net %d]" % i, mo["root"], list(res["ok"]["roots"][i].chip)))
                 if diffs:
@@ -1856,7 +2064,7 @@ def gen_cases(ctx, n):
         mach = gen_machine(ctx.rng, SIZES_Q)
         net = gen_net(ctx.rng, mach)
         cases.append(dict(machine=mach, net=net, rseed=ctx.rng.randrange(1 << 30),
-                          api=gen_api(ctx.rng, net) if ctx.rng.random() < 0.5 else None))
+                          api=gen_api(ctx.rng, net) if ctx.rng.random() < 0.5 else None, attrs=gen_attrs(ctx.rng)))
     return cases
 
 
@@ -1871,7 +2079,7 @@ def exhaustive_small(ctx):
             for dc in [[]] + ([[c] for c in chips] if len(dl) <= 1 else []):
                 mach = dict(w=w, h=h, dead_chips=dc, dead_links=dl)
                 net = gen_net(ctx.rng, mach)
-                cases.append(dict(machine=mach, net=net, rseed=ctx.rng.randrange(1 << 30)))
+                cases.append(dict(machine=mach, net=net, rseed=ctx.rng.randrange(1 << 30), attrs=gen_attrs(ctx.rng)))
     return cases
 
 
